@@ -366,7 +366,19 @@ impl<'de> Deserialize<'de> for Image {
                         "missing size".to_owned(),
                     )));
                 };
-                let expected_size = channels * size.height * size.width;
+                let Some(expected_size) = size
+                    .height
+                    .checked_mul(size.width)
+                    .and_then(|pixels| pixels.checked_mul(channels))
+                else {
+                    return Err(de::Error::custom(Error::ParseError(
+                        "Image",
+                        format!(
+                            "size {}x{} with {channels} channels is too large",
+                            size.height, size.width
+                        ),
+                    )));
+                };
                 let data_size = data.len();
                 if data_size != expected_size {
                     return Err(de::Error::custom(Error::ParseError(
